@@ -533,8 +533,17 @@ pub fn run(opts: &Opts) {
             }
             c.ex.end_case();
         } else {
-            let mut rng = Rng::new(opts.seed);
-            let cases = if opts.thorough() { 250 } else { 14 } * opts.scale;
+            // `shard=<i>/<n>` (stream argument): every node start leaks some memory inside the node
+            // (caches, runtime tasks), so the thorough budget is split over several processes
+            let (shard, nshards) = opts
+                .extra
+                .iter()
+                .find_map(|a| a.strip_prefix("shard="))
+                .and_then(|v| v.split_once('/'))
+                .map(|(a, b)| (a.parse::<u64>().unwrap(), b.parse::<u64>().unwrap()))
+                .unwrap_or((0, 1));
+            let mut rng = Rng::new(opts.seed.wrapping_mul(64).wrapping_add(shard));
+            let cases = if opts.thorough() { 160 / nshards } else if shard == 0 { 14 } else { 0 } * opts.scale;
             for _ in 0..cases {
                 gen_case(&mut c, &mut rng);
             }
